@@ -616,20 +616,33 @@ def cos(s):
     return 'None' if s is None else f'(Some {cs(s)})'
 
 
-def cfval(h):
+def cfval(h, S=1074):
+    """FFin z with z = f * 2^S (S is common to a whole session: the model only compares)"""
     if h == 'nan':
         return 'FNaN'
     if h == 'inf':
         return 'FPInf'
     if h == '-inf':
         return 'FMInf'
-    z = Fraction(float.fromhex(h)) * 2 ** 1074
+    z = Fraction(float.fromhex(h)) * 2 ** S
     assert z.denominator == 1
-    return f'(FFin ({z.numerator})%Z)'
+    n = z.numerator
+    return f'(FFin (- {hex(-n)})%Z)' if n < 0 else f'(FFin ({hex(n)})%Z)'
 
 
-def cofval(h):
-    return 'None' if h is None else f'(Some {cfval(h)})'
+def cofval(h, S=1074):
+    return 'None' if h is None else f'(Some {cfval(h, S)})'
+
+
+def scale_of(hs):
+    """smallest S such that every finite f * 2^S is an integer"""
+    S = 0
+    for h in hs:
+        if h is None or h in ('nan', 'inf', '-inf'):
+            continue
+        q = Fraction(float.fromhex(h)).denominator
+        S = max(S, q.bit_length() - 1)
+    return S
 
 
 def cvec(x):
@@ -698,11 +711,20 @@ def ccfg(sess):
             + '; cf_save := ' + ('true' if sess['save'] else 'false') + '; cf_init0 := ' + cvec(sess['init']) + ' |}')
 
 
-def cobs(o):
+def cobs(o, S=1074):
     if o is None:
         return 'None'
-    return ('(Some {| o_file := ' + cos(o['file']) + '; o_tmp := ' + cos(o['tmp']) + '; o_best := ' + cofval(o.get('best'))
+    return ('(Some {| o_file := ' + cos(o['file']) + '; o_tmp := ' + cos(o['tmp']) + '; o_best := ' + cofval(o.get('best'), S)
             + '; o_susp := ' + ('true' if o.get('susp') else 'false') + '; o_init := ' + cvec(o.get('init') or []) + ' |})')
+
+
+def cop(o, S):
+    """operation: a Gallina text, or ('Eval', x, f, g) / ('CrashEval', x, f, g, k)"""
+    if isinstance(o, str):
+        return o
+    if o[0] == 'Eval':
+        return f'(Eval {cvec(o[1])} {cfval(o[2], S)} {"true" if o[3] else "false"})'
+    return f'(CrashEval {cvec(o[1])} {cfval(o[2], S)} {"true" if o[3] else "false"} {o[4]})'
 
 
 # ------------------------------------------------------------------- history of a session
@@ -778,7 +800,7 @@ class Hist:
         n = len(self.sess['names'])
         if rec.get('ok', True) and 'f' in rec:
             f, g = rec['f'], bool(rec['gfin'])
-            self.add(f'(Eval {cvec(x)} {cfval(f)} {"true" if g else "false"})', obs, label)
+            self.add(('Eval', x, f, g), obs, label)
             self.check_values(x, label)
             if len(x) != n:
                 self.viol.append(('C15/iter/wrong-length-accepted', 'a vector of the wrong length was evaluated', label))
@@ -790,7 +812,7 @@ class Hist:
             if self.inboot:
                 self.kinds.add('boot')
         else:
-            self.add(f'(Eval {cvec(x)} FNaN false)', obs, label)
+            self.add(('Eval', x, 'nan', False), obs, label)
             if len(x) == n or rec.get('exc') != 'ValueError':
                 self.viol.append(('C15/iter/evaluation-raised', f'evaluation raised {rec.get("exc")}: {rec.get("msg")}', label))
             self.kinds.add('badlen')
@@ -857,7 +879,10 @@ class Hist:
             raise RuntimeError(f'unknown op {kind}')
 
     def coq(self, pre_file):
-        ops = coq_list([f'({o}, {cobs(ob)})' for o, ob, _ in self.items], ';\n  ')
+        fs = [o[2] for o, _, _ in self.items if not isinstance(o, str)] + \
+             [ob.get('best') for _, ob, _ in self.items if ob is not None]
+        S = scale_of(fs)
+        ops = coq_list([f'({cop(o, S)}, {cobs(ob, S)})' for o, ob, _ in self.items], ';\n  ')
         return f'({ccfg(self.sess)}, {cos(pre_file)},\n  {ops})'
 
     def labels(self):
@@ -882,7 +907,7 @@ def gen_session(rng, long=False):
     names = sorted(rng.sample(NAME_POOL, k))
     targets = [dy(rng) for _ in range(k)]
     init = [dy(rng) for _ in range(k)]
-    weights = [[rng.choice([0.5, 1.0, 1.5, 2.0]) for _ in range(3)] for _ in range(k)]
+    weights = [[rng.choice([0.5, 1.0, 2.0] if j == 0 else [0.5, 1.0, 1.5, 2.0]) for _ in range(3)] for j in range(k)]
     sess = {'names': names, 'targets': [fhex(t) for t in targets], 'init': [fhex(v) for v in init],
             'weights': weights, 'rows': 3, 'model': rng.choice(MODEL_POOL), 'save': rng.random() < 0.9,
             'seed': rng.randint(0, 10 ** 6), 'bootstrap_samples': rng.choice([1, 2, 3]), 'div': True}
@@ -908,8 +933,8 @@ def gen_session(rng, long=False):
                 x = [2 * t - b for t, b in zip(targets, last)]
             elif kind < 0.70 and last is not None:  # the same point again
                 x = list(last)
-            elif kind < 0.82:  # finite f, non-finite gradient (b_1 = 0), possibly the best f so far
-                x = [0.0] + [t for t in targets[1:]]
+            elif kind < 0.82:  # finite f, non-finite gradient (b_1 = 0.1), possibly the best f so far
+                x = [0.1] + [t for t in targets[1:]]
             elif kind < 0.88:
                 x = [rng.choice([float('nan'), float('inf'), 1e300])] + [dy(rng) for _ in range(k - 1)]
             elif kind < 0.94:  # wrong length
@@ -918,7 +943,7 @@ def gen_session(rng, long=False):
                     x = [dy(rng), dy(rng)]
             else:
                 x = [dy(rng, bits=10) * rng.choice([1e-7, 1.0, 1e9, 1 / 3]) for _ in range(k)]
-            if len(x) == k and all(math.isfinite(v) for v in x) and x[0] != 0:
+            if len(x) == k and all(math.isfinite(v) for v in x) and x[0] != 0.1:
                 last = x
             ops.append({'op': 'eval', 'x': [fhex(v) for v in x]})
         elif r < 0.74:
@@ -1153,7 +1178,7 @@ def gen_crash_scenario(rng, use_estimate):
             elif r < 0.8:
                 x = [t + dy(rng, -8, 8) for t in targets]
             else:
-                x = [0.0] + targets[1:]
+                x = [0.1] + targets[1:]
             ops.append({'op': 'eval', 'x': [fhex(v) for v in x]})
         sess['ops'] = ops
     sess['restart_ops'] = [{'op': 'new'}, {'op': 'estimate'}]
@@ -1187,7 +1212,7 @@ def crash_history(sess, dry, upto, k_steps, after, b_steps):
             h.feed(i, op, rec)
         elif kind == 'eval':
             if n == upto:
-                h.add(f'(CrashEval {cvec(op["x"])} {cfval(rec["f"])} {"true" if rec["gfin"] else "false"} {k_steps})',
+                h.add(('CrashEval', op['x'], rec['f'], bool(rec['gfin']), k_steps),
                       {'file': after['file'], 'tmp': after['tmp'], 'best': None, 'susp': False, 'init': sess['init']},
                       'crash')
                 done = True
@@ -1201,7 +1226,7 @@ def crash_history(sess, dry, upto, k_steps, after, b_steps):
                 if 'x' not in inn:
                     continue
                 if n == upto:
-                    h.add(f'(CrashEval {cvec(inn["x"])} {cfval(inn["f"])} {"true" if inn["gfin"] else "false"} {k_steps})',
+                    h.add(('CrashEval', inn['x'], inn['f'], bool(inn['gfin']), k_steps),
                           {'file': after['file'], 'tmp': after['tmp'], 'best': None, 'susp': False, 'init': sess['init']},
                           'crash')
                     done = True
